@@ -91,9 +91,12 @@ func isCanonical(f *sfnt.Font) string {
 		if len(o.Widths) != len(o.Glyphs) {
 			return "glyf widths missing"
 		}
-		for k := range o.Tables {
+		for k, b := range o.Tables {
 			if k != "cvt " && k != "fpgm" && k != "prep" && k != "gasp" {
 				return "extra raw table"
+			}
+			if len(b) == 0 {
+				return "empty pass-through table (read back as absent)"
 			}
 		}
 		if o.Tables == nil {
